@@ -39,7 +39,7 @@ Proof.
 Defined.
 
 Definition ZT4 : TimeS G4 :=
-  @Build_TimeS G4 Z Z.leb zclose_new zdiff zsep zclose_new_sep (option Z) zmerge zmerge_assoc.
+  @Build_TimeS G4 Z Z.leb zclose_new zdiff zsep zclose_new_sep dstate dict dmerge dcomb dmerge_assoc.
 
 (* the lift maps as transform-stack entries, pushed with anti = False *)
 Definition t_spre : tr G4 := @TUser G4 spre_f false.
